@@ -147,6 +147,7 @@ impl Director for D {
             progress: vec![],
             results,
             install_result: "r".into(),
+            await_last_ack: true,
         }
     }
     fn reboot_needed(&mut self, w: &mut Inner, _plan: &str) -> bool {
